@@ -11,6 +11,7 @@ import TantivyModel.Proofs.BlockCursor
 import TantivyModel.Proofs.Pipeline
 import TantivyModel.Proofs.JsonPositions
 import TantivyModel.Proofs.RecorderRemap
+import TantivyModel.Proofs.BlockCursorDrain
 /-!
 # C07 — The inverted index records exactly the terms, documents, frequencies, positions
 
@@ -286,6 +287,27 @@ theorem C07_reset_equiv_open (c : Cfg) (o req : RecOpt) (p : BlockPostings) (doc
     decide
   have h := reset_eq_open c o req p docFreq bytes hskip hfreq
   exact ⟨h, fun fuel => drain_docs_congr c fuel _ _ h, fun s data => SkipReader.reset_eq_new c s data docFreq⟩
+
+/-- **The lazy cursor reads the list** (lazy `SkipReader` / `BlockSegmentPostings` model ≡ the
+eager decoder on encoded input): a block cursor opened on the bytes `PostingsSerializer` writes for
+a posting list — skip reader walking entry by entry, `byte_offset` accumulated from the bit widths,
+each block decoded against `last_doc_in_previous_block` — drained block after block yields exactly
+the docs; and so does a *recycled* cursor, whatever it had read before (this is the end-to-end
+statement seeded mutant B violated). -/
+theorem C07_lazy_cursor_drains (o : RecOpt) (docs tfs : List Nat) (hv : ValidList docs tfs) :
+    (BlockPostings.drain cfg (docs.length / cfg.B + 2)
+      (BlockPostings.open cfg o o docs.length (encodeTerm cfg o docs tfs))).1 = docs ∧
+    ∀ p : BlockPostings, p.skip.skipInfo = o → p.freqOpt = freqOptOf o o →
+      (BlockPostings.drain cfg (docs.length / cfg.B + 2)
+        (p.reset cfg docs.length (encodeTerm cfg o docs tfs))).1 = docs := by
+  have hopen := drain_open_encode cfg o (by decide) (by decide) (by decide) C07_bp4x_good docs tfs hv
+  refine ⟨hopen, fun p hskip hfreq => ?_⟩
+  have heff : effectiveOpt cfg o docs.length (splitSkips cfg docs.length (encodeTerm cfg o docs tfs)).1 = o := by
+    rw [splitSkips_encodeTerm cfg o (by decide)]
+    exact effectiveOpt_encodeTerm cfg o docs tfs
+  have h := (C07_reset_equiv_open cfg o o p docs.length (encodeTerm cfg o docs tfs)
+    (by rw [heff]; exact hskip) (by rw [heff]; exact hfreq)).2.1 (docs.length / cfg.B + 2)
+  rw [h]; exact hopen
 
 /-! ### TermInfoStore -/
 
